@@ -128,8 +128,18 @@ func StringValueFromCodeField(message proto.Message) (string, bool) {
 		field := reflect.Descriptor().Fields().ByName(protoreflect.Name("value"))
 		if field.Kind() == protoreflect.EnumKind {
 			enum := reflect.Get(field).Enum()
-			code := string(field.Enum().Values().ByNumber(enum).Name())
-			return strcase.ToKebab(code), true
+			value := field.Enum().Values().ByNumber(enum)
+			if value == nil {
+				return "", false
+			}
+			// Codes that are not valid enum identifiers (e.g. "<=" or "text/cql")
+			// carry their original spelling in an annotation; all others are the
+			// enum name in lower case with dashes.
+			if original := proto.GetExtension(value.Options(), apb.E_FhirOriginalCode).(string); original != "" {
+				return original, true
+			}
+			code := string(value.Name())
+			return strings.ReplaceAll(strings.ToLower(code), "_", "-"), true
 		}
 		if field.Kind() == protoreflect.StringKind {
 			return reflect.Get(field).String(), true
